@@ -7,6 +7,8 @@ Open Scope Q_scope.
 Definition xtol_default : Q := 7737125245533627 # 77371252455336267181195264.   (* 1e-10 *)
 Definition isclose_atol : Q := 3022314549036573 # 302231454903657293676544.      (* 1e-8 *)
 Definition isclose_rtol : Q := 5902958103587057 # 590295810358705651712.         (* 1e-5 *)
+(* np.sign *)
+Definition Qsgn (x : Q) : Q := if Qltb 0 x then 1 else if Qltb x 0 then -1 else 0.
 (* np.isclose(a, b): |a - b| <= atol + rtol * |b| *)
 Definition isclose (a b : Q) : bool := Qleb (Qabs (a - b)) (isclose_atol + isclose_rtol * Qabs b).
 
@@ -44,7 +46,7 @@ Section WithCarrier.
     if Qltb nl p0 && label_eqb (score_class s) Pos then Ret ((p0 + nl) / 2, 0)
     else if Qltb pl n0 && label_eqb (score_class s) Neg then Ret ((pl + n0) / 2, 0)
     else
-      let sign := - (t_fpr s 0 - t_fnr s 0) in
+      let sign := - Qsgn (t_fpr s 0 - t_fnr s 0) in
       let f := fun x => sign * (t_fpr s x - t_fnr s x) in
       let max_eer := Qmin2 (hard_pos_ratio s) (hard_neg_ratio s) in
       if Qltb (f max_eer) 0 then
